@@ -51,13 +51,13 @@ def run_history(job):
                     if on_disk.get(nm) == sc:      # an edit touches only the files whose contents change
                         continue
                     on_disk[nm] = sc
-                    with open(os.path.join(w, nm + ".xbb"), "w") as fh:
+                    with open(os.path.join(w, nm + ".xbb"), "w", encoding="utf-8") as fh:
                         fh.write(text_of(sc, rng))
             s = scripts[h["sid"] - 1]
             text = text_of(s, rng)
             texts.append(text)
             path = os.path.join(w, "main%d.xbb" % k)
-            with open(path, "w") as fh:
+            with open(path, "w", encoding="utf-8") as fh:
                 fh.write(text)
             try:
                 real = ("ok", blackbird.load(path))
